@@ -380,6 +380,52 @@ func (d *Document) AddTable(config *TableConfig) (*Table, error) {
 	return table, nil
 }
 
+// cellGridSpan 返回单元格占用的网格列数（w:gridSpan，默认为1）
+func cellGridSpan(cell *TableCell) int {
+	span := 1
+	if cell.Properties != nil && cell.Properties.GridSpan != nil {
+		fmt.Sscanf(cell.Properties.GridSpan.Val, "%d", &span)
+	}
+	if span < 1 {
+		return 1
+	}
+	return span
+}
+
+// cellVMerge 返回单元格的垂直合并角色："restart"、"continue"（空的 w:vMerge 也表示 continue）或 ""（未合并）
+func cellVMerge(cell *TableCell) string {
+	if cell.Properties == nil || cell.Properties.VMerge == nil {
+		return ""
+	}
+	if cell.Properties.VMerge.Val == "restart" {
+		return "restart"
+	}
+	return "continue"
+}
+
+// cellGridStart 返回某行第 index 个物理单元格起始的网格列
+// （左侧有水平合并的单元格时，物理索引与网格列不同）
+func cellGridStart(row *TableRow, index int) int {
+	start := 0
+	for i := 0; i < index && i < len(row.Cells); i++ {
+		start += cellGridSpan(&row.Cells[i])
+	}
+	return start
+}
+
+// cellAtGrid 返回第 row 行中起始于网格列 gridCol 且跨度为 span 的单元格；行不存在或没有这样的单元格时返回 nil
+func (t *Table) cellAtGrid(row, gridCol, span int) *TableCell {
+	if row < 0 || row >= len(t.Rows) {
+		return nil
+	}
+	for i := range t.Rows[row].Cells {
+		if cellGridStart(&t.Rows[row], i) == gridCol && cellGridSpan(&t.Rows[row].Cells[i]) == span {
+			return &t.Rows[row].Cells[i]
+		}
+	}
+	return nil
+}
+
 // InsertRow 在指定位置插入行
 func (t *Table) InsertRow(position int, data []string) error {
 	if position < 0 || position > len(t.Rows) {
